@@ -80,11 +80,23 @@ type (
 		M map[string]BadRecM `plenc:"1"`
 		X int                // no plenc tag
 	}
+	// ... rejected for a duplicate index, which is only found once all fields have their codecs
+	BadRecD struct {
+		Kids []BadRecD `plenc:"1"`
+		A    int       `plenc:"2"`
+		B    string    `plenc:"2"`
+	}
+	BadRecDP struct {
+		A    int       `plenc:"1"`
+		Next *BadRecDP `plenc:"3"`
+		B    int       `plenc:"1"`
+	}
 )
 
 // StaticBad are Go types used by name in "typedef" cases (they cannot be built with reflect.StructOf).
 var StaticBad = map[string]reflect.Type{
 	"BadRecS": reflect.TypeOf(BadRecS{}), "BadRecP": reflect.TypeOf(BadRecP{}), "BadRecM": reflect.TypeOf(BadRecM{}),
+	"BadRecD": reflect.TypeOf(BadRecD{}), "BadRecDP": reflect.TypeOf(BadRecDP{}),
 }
 
 // Marked is the named type for which some instances register a marker codec (C17).
